@@ -562,6 +562,16 @@ fn c10_cells(w: &World, state_class: &'static str, samples: &[Sample], out: &mut
                     out.violation("C10", "rejected_call_changes_nothing", format!("[{}] rejected {}::{} by {} changed the state: {:?}", state_class, s.contract, s.variant, sender, w.diff(&c)));
                     return;
                 }
+                // the rejection has to come from the contract's own sender check, not from whatever happens to fail
+                // further down the message tree (that would be an open door waiting for a state in which it does not)
+                if r.trace.execs.first().map(|e| e.handler_ok).unwrap_or(false) {
+                    out.violation(
+                        "C10",
+                        "unauthorised_sender_rejected",
+                        format!("[{}] {}::{} (payload {}) sent by {} ({}) was accepted by the contract itself; the transaction only failed later: {}", state_class, s.contract, s.variant, s.payload, sender, class, r.err),
+                    );
+                    return;
+                }
                 out.count("c10.unauthorised_cells_rejected");
             } else if al.is_some() {
                 // designated principal: must get past the sender check (anti-vacuity counter)
@@ -945,6 +955,10 @@ fn c11_cells(w: &World, samples: &[Sample], out: &mut Out, log: &mut Vec<serde_j
                 out.violation("C11", "blocked_while_paused", format!("rejected hub {} by {} changed the state while paused", s.variant, sender));
                 return;
             }
+            if r.trace.execs.iter().any(|e| e.callee == HUB && e.handler_ok) {
+                out.violation("C11", "blocked_while_paused", format!("hub {} by {} was accepted by the hub while paused; the transaction only failed later: {}", s.variant, sender, r.err));
+                return;
+            }
             out.count("c11.paused_cells_rejected");
             if log.len() < 60 {
                 log.push(json!({"paused_cell": s.variant, "sender_class": class, "err": r.err.chars().take(60).collect::<String>()}));
@@ -959,8 +973,9 @@ fn c11_cells(w: &World, samples: &[Sample], out: &mut Out, log: &mut Vec<serde_j
                 let d0 = c.digest();
                 let r = op.apply(&mut c);
                 out.count("c11.hook_cells_via_token_send");
-                if r.ok() || c.digest() != d0 {
-                    out.violation("C11", "blocked_while_paused", format!("{} through the token's Send hook succeeded while paused", op.kind()));
+                let hub_accepted = r.trace().map(|t| t.execs.iter().any(|e| e.callee == HUB && e.handler_ok)).unwrap_or(false);
+                if r.ok() || c.digest() != d0 || hub_accepted {
+                    out.violation("C11", "blocked_while_paused", format!("{} through the token's Send hook was accepted by the hub while paused", op.kind()));
                     return;
                 }
             }
